@@ -98,6 +98,10 @@ fn panic_msg(p: Box<dyn std::any::Any + Send>) -> String {
     }
 }
 
+/// Number of unrelated entries the sink already holds when the next run starts (C13: repeated
+/// executions of one executor get sinks that differ in state the program must not depend on).
+pub static PREFILL: std::sync::atomic::AtomicUsize = std::sync::atomic::AtomicUsize::new(0);
+
 fn exec_once<C: CellType, X: Executable<C>>(
     exec: &X,
     cfg: &RunCfg,
@@ -106,6 +110,10 @@ fn exec_once<C: CellType, X: Executable<C>>(
 ) -> RunResult {
     let rec = Rc::new(RefCell::new(Recorder::default()));
     rec.borrow_mut().log.reserve(1024);
+    let pre = PREFILL.load(std::sync::atomic::Ordering::SeqCst);
+    for _ in 0..pre {
+        rec.borrow_mut().log.push(Ev::InFail);
+    }
     rec.borrow_mut().stream = stream;
     let reader: Option<Box<dyn std::io::Read>> = if cfg.in_absent {
         None
@@ -154,7 +162,7 @@ fn exec_once<C: CellType, X: Executable<C>>(
     };
     let rec = rec.borrow();
     RunResult {
-        log: rec.log.clone(),
+        log: rec.log[pre.min(rec.log.len())..].to_vec(),
         ret,
         fault: rec.fault,
         capped: rec.capped,
@@ -217,8 +225,10 @@ fn repeated_with<'c, C: CellType, X: Executor<'c, C>>(
 ) -> Vec<(Vec<Ev>, String)> {
     match catch_unwind(AssertUnwindSafe(|| X::create(code, cfg.level))) {
         Ok(Ok(exec)) => (0..n)
-            .map(|_| {
+            .map(|i| {
+                PREFILL.store(if i == 0 { 0 } else { 7 * i + 1 }, std::sync::atomic::Ordering::SeqCst);
                 let r = exec_once::<C, X>(&exec, cfg, input, None);
+                PREFILL.store(0, std::sync::atomic::Ordering::SeqCst);
                 (r.log, r.ret)
             })
             .collect(),
